@@ -2,7 +2,7 @@
    operations.  Statements only; proofs in Proofs/C03Proofs.v.  td_*/dt_* are regenerated from
    /repo/src/nitypes/bintime/_timedelta.py and _datetime.py on every run. *)
 From Coq Require Import ZArith List.
-From NV Require Import Common.Py Common.Trans Spec.TimeSpec Gen.BintimeGen Proofs.C03Proofs.
+From NV Require Import Common.Py Common.Trans Spec.TimeSpec Gen.BintimeGen Proofs.C03Proofs Proofs.C03Algebra.
 Open Scope Z_scope.
 
 (* every operator returns the integer result, or OverflowError exactly when it is out of range *)
@@ -88,6 +88,77 @@ Theorem C03_datetime_add_sub_cancel : forall t d s,
   dt_add_td t d = Ok s -> in128 d = true -> dt_sub_dt s t = Ok d.
 Proof. exact dt_add_sub_cancel. Qed.
 Print Assumptions C03_datetime_add_sub_cancel.
+
+(* algebraic laws users rely on (Proofs/C03Algebra.v): they hold exactly whenever no intermediate
+   result leaves the signed 128-bit range, and the only failure mode is OverflowError *)
+Theorem C03_add_comm : forall a b, td_add a b = td_add b a.
+Proof. exact td_add_comm. Qed.
+Print Assumptions C03_add_comm.
+Theorem C03_add_assoc : forall a b c ab bc,
+  td_add a b = Ok ab -> td_add b c = Ok bc -> td_add ab c = td_add a bc.
+Proof. exact td_add_assoc. Qed.
+Print Assumptions C03_add_assoc.
+Theorem C03_add_zero : forall a, in128 a = true -> td_add a 0 = Ok a /\ td_add 0 a = Ok a.
+Proof. exact td_add_zero. Qed.
+Print Assumptions C03_add_zero.
+Theorem C03_neg_involutive : forall a na, in128 a = true -> td_neg a = Ok na -> td_neg na = Ok a.
+Proof. exact td_neg_involutive. Qed.
+Print Assumptions C03_neg_involutive.
+Theorem C03_neg_overflow_iff : forall a, in128 a = true -> (td_neg a = Raise OverflowError <-> a = MIN128).
+Proof. exact td_neg_overflow_iff. Qed.
+Print Assumptions C03_neg_overflow_iff.
+Theorem C03_sub_as_add_neg : forall a b nb, td_neg b = Ok nb -> td_sub a b = td_add a nb.
+Proof. exact td_sub_as_add_neg. Qed.
+Print Assumptions C03_sub_as_add_neg.
+Theorem C03_sub_self : forall a, td_sub a a = Ok 0.
+Proof. exact td_sub_self. Qed.
+Print Assumptions C03_sub_self.
+Theorem C03_mul_int_distr : forall a b n ab pa pb,
+  td_add a b = Ok ab -> td_mul_int a n = Ok pa -> td_mul_int b n = Ok pb ->
+  td_mul_int ab n = td_add pa pb.
+Proof. exact td_mul_int_distr. Qed.
+Print Assumptions C03_mul_int_distr.
+Theorem C03_mul_int_one_zero : forall a, in128 a = true -> td_mul_int a 1 = Ok a /\ td_mul_int a 0 = Ok 0.
+Proof. exact td_mul_int_one_zero. Qed.
+Print Assumptions C03_mul_int_one_zero.
+(* the Python expression (a // b) * b + a % b evaluated with the generated operators gives back a ... *)
+Theorem C03_divmod_recompose : forall a b q r p,
+  in128 a = true -> in128 b = true -> b <> 0 ->
+  td_divmod a b = Ok (q, r) -> td_mul_int b q = Ok p -> td_add p r = Ok a.
+Proof. exact td_divmod_recompose. Qed.
+Print Assumptions C03_divmod_recompose.
+(* ... its intermediate product exists unless a is within |b| of an end of the range ... *)
+Theorem C03_divmod_product_in_range : forall a b,
+  in128 a = true -> in128 b = true -> b <> 0 ->
+  MIN128 + Z.abs b <= a <= MAX128 - Z.abs b ->
+  td_mul_int b (a / b) = Ok (b * (a / b)).
+Proof. exact td_divmod_product_in_range. Qed.
+Print Assumptions C03_divmod_product_in_range.
+(* ... and there it raises OverflowError (never wraps), although a, b and the sum are in range *)
+Theorem C03_divmod_product_overflow_witness :
+  in128 MIN128 = true /\ in128 3 = true /\
+  td_divmod MIN128 3 = Ok (-56713727820156410577229101238628035243, 1) /\
+  td_mul_int 3 (-56713727820156410577229101238628035243) = Raise OverflowError.
+Proof. exact td_divmod_product_overflow_witness. Qed.
+Print Assumptions C03_divmod_product_overflow_witness.
+Theorem C03_mod_sign : forall a b r, in128 b = true -> b <> 0 -> td_mod a b = Ok r ->
+  (0 < b -> 0 <= r < b) /\ (b < 0 -> b < r <= 0).
+Proof. exact td_mod_sign. Qed.
+Print Assumptions C03_mod_sign.
+Theorem C03_floordiv_floor : forall a b q, 0 < b -> td_floordiv_td a b = Ok q -> q * b <= a < (q + 1) * b.
+Proof. exact td_floordiv_floor. Qed.
+Print Assumptions C03_floordiv_floor.
+Theorem C03_add_monotone : forall a b c ac bc,
+  td_add a c = Ok ac -> td_add b c = Ok bc -> td_lt ac bc = td_lt a b /\ td_eq ac bc = td_eq a b.
+Proof. exact td_add_monotone. Qed.
+Print Assumptions C03_add_monotone.
+Theorem C03_datetime_add_add : forall t d1 d2 s d12,
+  dt_add_td t d1 = Ok s -> td_add d1 d2 = Ok d12 -> dt_add_td s d2 = dt_add_td t d12.
+Proof. exact dt_add_add. Qed.
+Print Assumptions C03_datetime_add_add.
+Theorem C03_datetime_sub_antisym : forall a b d, dt_sub_dt a b = Ok d -> dt_sub_dt b a = td_neg d.
+Proof. exact dt_sub_antisym. Qed.
+Print Assumptions C03_datetime_sub_antisym.
 
 Example C03_witness :
   td_add MAX128 1 = Raise OverflowError /\ td_add MAX128 (-1) = Ok (MAX128 - 1) /\
